@@ -151,7 +151,7 @@ class SigmaDetectionItem(ProcessingItemTrackingMixin, ParentChainMixin):
                 SigmaString.from_str(
                     cast("str", v),
                 )  # The string type is ensured previously by the 're' modifier.
-                if SigmaRegularExpressionModifier in modifiers
+                if SigmaRegularExpressionModifier in modifiers and isinstance(v, str)
                 else sigma_type(v)
             )
             for v in val_list
